@@ -835,6 +835,13 @@ def corpus():
          ["new_file", "d", 7, "E", None, None], ["new_dir", "q", 6, None], ["adjust", "c", 9, 8],
          ["new_file", "c", 7, "D", None, None], ["adjust", "px", 0, 7], ["adjust", "d", 6, 9]],
     ]
+    ops += [
+        # a deleted but still versioned entry and a new entry of the same name in the same directory:
+        # must be reported as a duplicate (a conflict-free transform must apply)
+        [["delete", 1], ["new_file", "a", 0, "N", 31, None]],
+        [["new_dir", "x", 2, 32], ["delete", 3]],
+        [["delete", 5], ["adjust", "b", 0, 1]],
+    ]
     out = [{"base": B0, "ops": o} for o in ops]
     # unversioned tree directory with a versioned child, moved into itself: repaired 3ace332, must pass
     out.append({"base": [[0, "u", "d", "", False, None], [0, "b", "f", "B", False, 4]],
@@ -928,6 +935,26 @@ def _dead_versioned(inp):
                and o[1] not in unv for o in inp["ops"])
 
 
+def _dead_child_below_file(inp, obs):
+    """The preview (after resolve) lists a versioned entry without contents whose parent is a FILE (on disk,
+    or -- when the parent has no contents either -- a file in the inventory)."""
+    if len(obs) < 8 or not isinstance(obs[5], list):
+        return False
+    stored = {b[5] + 1: b[2] for b in inp["base"] if b[5] is not None}
+    isfile = {}
+    dead = []
+    for r in obs[5]:
+        if r[-1] == -3:
+            continue
+        i = r.index(-1)
+        path = bytes(r[:i]).decode()
+        kind, fid = r[i + 1], r[i + 3]
+        isfile[path] = kind == 1 or (kind == 0 and stored.get(fid) == "f")
+        if kind == 0 and fid > 0:
+            dead.append(path)
+    return any("/" in p and isfile.get(p.rsplit("/", 1)[0]) for p in dead)
+
+
 def finding_matches(fid, inp, obs, why):
     nbase = len(inp["base"])
     if fid == "C14-replaced-directory":
@@ -953,7 +980,7 @@ def finding_matches(fid, inp, obs, why):
     if fid == "C14-dead-versioned-child":
         return ((why.startswith("apply of a conflict-free transform raised InconsistentDelta")
                  or why.startswith("preview differs from the applied tree (paths"))
-                and not _reversion(inp) and _dead_versioned(inp))
+                and not _reversion(inp) and _dead_versioned(inp) and _dead_child_below_file(inp, obs))
     if fid == "C14-unversion-unversioned":
         return (why.startswith("find_raw_conflicts raised NoSuchFile")
                 and any(o[0] == "unversion" and 1 <= o[1] <= nbase and inp["base"][o[1] - 1][5] is None
